@@ -156,10 +156,10 @@ impl<W: Write> Encoder<W> {
 
     /// Encode a CBOR simple value.
     pub fn simple(&mut self, x: u8) -> Result<&mut Self, Error<W::Error>> {
-        if x < 0x14 {
-            self.put(&[SIMPLE | x])
-        } else {
-            self.put(&[SIMPLE | 24, x])
+        match x {
+            0    ..= 0x17 => self.put(&[SIMPLE | x]),
+            0x18 ..= 0x1f => Err(Error::message("invalid simple value (24..=31 are not well-formed)")),
+            _             => self.put(&[SIMPLE | 24, x])
         }
     }
 
